@@ -344,3 +344,25 @@ func hasRef(b RBody) bool {
 	}
 	return false
 }
+
+// FreeRefs counts the free attributes (bodies read in free-attributes mode) of
+// GENERATED blocks whose expression refers to an iterator.
+func FreeRefs(b RBody) int {
+	n := 0
+	for _, it := range b.Items {
+		switch {
+		case it.Dyn != nil:
+			if it.Dyn.Free {
+				for _, c := range it.Dyn.Content.Items {
+					if c.Attr != nil && c.Attr.E.Ref != "" {
+						n++
+					}
+				}
+			}
+			n += FreeRefs(it.Dyn.Content)
+		case it.Block != nil:
+			n += FreeRefs(it.Block.Body)
+		}
+	}
+	return n
+}
